@@ -81,10 +81,12 @@ pub struct Config {
     /// explicit schedule: (step, thread) deviations from the baseline policy
     pub schedule: Option<Vec<(u64, u16)>>,
     pub max_steps: u64,
+    /// fill every receive buffer with a canary byte before the real call
+    pub canary: bool,
 }
 impl Config {
     pub fn new(seed: u64) -> Config {
-        Config { seed, policy: Policy::Random, sndbuf: None, faults: vec![], schedule: None, max_steps: 400_000 }
+        Config { seed, policy: Policy::Random, sndbuf: None, faults: vec![], schedule: None, max_steps: 400_000, canary: false }
     }
 }
 
@@ -196,6 +198,7 @@ pub struct Stats {
     pub p_ctrunc: u64,
     pub p_trunc: u64,
     pub p_sigpipe: u64,
+    pub p_poisoned: u64,
     pub p_clock_jumps: u64,
     pub p_futex_wait: u64,
     pub p_stale: u64,
@@ -239,6 +242,7 @@ pub struct Global {
     pub log_seam: bool,
     pub faults_suspended: bool,
     pub pending_exit: i64,
+    pub poison_note: String,
 }
 
 static mut GLOBAL: Option<Box<Global>> = None;
@@ -678,6 +682,7 @@ pub fn start(cfg: Config) {
         log_seam: false,
         faults_suspended: false,
         pending_exit: 0,
+        poison_note: String::new(),
     });
     for p in gl.procs.iter_mut() {
         p.crash_at = u64::MAX;
@@ -1184,6 +1189,43 @@ pub unsafe extern "C" fn getrandom(buf: *mut u8, len: usize, flags: u32) -> isiz
     ret(raw6(libc::SYS_getrandom, buf as i64, len as i64, flags as i64, 0, 0, 0)) as isize
 }
 
+// ------------------------------------------------------------------ buffer checks (ASan build)
+#[cfg(feature = "asan")]
+extern "C" {
+    fn __asan_region_is_poisoned(beg: *const libc::c_void, size: usize) -> *const libc::c_void;
+}
+/// A buffer handed to the kernel must lie entirely inside live allocations.
+unsafe fn check_buffer(what: &str, p: *const libc::c_void, len: usize) {
+    #[cfg(feature = "asan")]
+    {
+        if !p.is_null() && len > 0 && !__asan_region_is_poisoned(p, len).is_null() {
+            let gl = g();
+            gl.stats.p_poisoned += 1;
+            if gl.poison_note.is_empty() {
+                gl.poison_note = format!("{}: buffer of {} bytes handed to the kernel overlaps poisoned (freed / out-of-bounds) memory", what, len);
+            }
+        }
+    }
+    #[cfg(not(feature = "asan"))]
+    {
+        let _ = (what, p, len);
+    }
+}
+unsafe fn check_msghdr(what: &str, m: *const libc::msghdr, fill: bool) {
+    let mh = &*m;
+    for i in 0..mh.msg_iovlen {
+        let iov = &*mh.msg_iov.add(i);
+        check_buffer(what, iov.iov_base, iov.iov_len);
+        if fill && g().cfg.canary && !iov.iov_base.is_null() {
+            std::ptr::write_bytes(iov.iov_base as *mut u8, CANARY, iov.iov_len);
+        }
+    }
+    if !mh.msg_control.is_null() {
+        check_buffer(what, mh.msg_control, mh.msg_controllen as usize);
+    }
+}
+pub const CANARY: u8 = 0xC5;
+
 // ------------------------------------------------------------------ sockets
 fn nonblocking(fd: i32) -> bool {
     let fl = unsafe { raw6(libc::SYS_fcntl, fd as i64, libc::F_GETFL as i64, 0, 0, 0, 0) };
@@ -1233,6 +1275,7 @@ pub unsafe extern "C" fn sendmsg(fd: i32, msg: *const libc::msghdr, flags: i32) 
         return ret(raw6(libc::SYS_sendmsg, fd as i64, msg as i64, flags as i64, 0, 0, 0)) as isize;
     }
     yield_point();
+    check_msghdr("sendmsg", msg, false);
     // total length and number of descriptors (for the log)
     let m = &*msg;
     let mut total = 0usize;
@@ -1302,6 +1345,7 @@ pub unsafe extern "C" fn send(fd: i32, buf: *const libc::c_void, len: usize, fla
         return ret(raw6(libc::SYS_sendto, fd as i64, buf as i64, len as i64, flags as i64, 0, 0)) as isize;
     }
     yield_point();
+    check_buffer("send", buf, len);
     if let Some(e) = tx_fault(None) {
         trace(S_SEND, lid_of(fd), len as i64, -(e as i64));
         return errno_ret(e) as isize;
@@ -1362,6 +1406,7 @@ pub unsafe extern "C" fn recvmsg(fd: i32, msg: *mut libc::msghdr, flags: i32) ->
         return ret(raw6(libc::SYS_recvmsg, fd as i64, msg as i64, flags as i64, 0, 0, 0)) as isize;
     }
     yield_point();
+    check_msghdr("recvmsg", msg, true);
     let ctl_len = (*msg).msg_controllen;
     loop {
         (*msg).msg_controllen = ctl_len;
@@ -1388,6 +1433,10 @@ pub unsafe extern "C" fn recv(fd: i32, buf: *mut libc::c_void, len: usize, flags
         return ret(raw6(libc::SYS_recvfrom, fd as i64, buf as i64, len as i64, flags as i64, 0, 0)) as isize;
     }
     yield_point();
+    check_buffer("recv", buf, len);
+    if g().cfg.canary && !buf.is_null() {
+        std::ptr::write_bytes(buf as *mut u8, CANARY, len);
+    }
     loop {
         // MSG_TRUNC makes the kernel report the real packet length, so a packet that did not fit
         // the buffer the receiver offered is visible at the seam (the library sees min(len, real)).
@@ -1712,7 +1761,9 @@ pub unsafe extern "C" fn fcntl(fd: i32, cmd: i32, arg: usize) -> i32 {
     if creates && r >= 0 {
         ledger_add(r, K_DUP, 0);
     }
-    trace(S_FCNTL, lid_of(fd), ((cmd as i64) << 32) | (arg as i64 & 0xffff_ffff), if creates && r >= 0 { lid_of(r as i32) } else { r });
+    // (commands without an argument leave the third register undefined: do not record it)
+    let has_arg = creates || cmd == libc::F_SETFL || cmd == libc::F_SETFD;
+    trace(S_FCNTL, lid_of(fd), ((cmd as i64) << 32) | if has_arg { arg as i64 & 0xffff_ffff } else { 0 }, if creates && r >= 0 { lid_of(r as i32) } else { r });
     ret(r) as i32
 }
 #[no_mangle]
